@@ -8,7 +8,8 @@
    (AddVRFShare), [vrf_seed] the seed computation (ThresholdNumBLSSigReceived). *)
 From Coq Require Import ZArith String.
 From mathcomp Require Import all_ssreflect ssralg poly zmodp.
-From ZC Require Import Model.DKG Model.VRFAdmit Model.VRF Model.VRFMsg Proof.DKG Proof.VRF Proof.VRFMsg.
+From ZC Require Import Model.DKG Model.DKGZ Model.VRFAdmit Model.VRF Model.VRFMsg Model.VRFZ.
+From ZC Require Import Proof.DKG Proof.DKGLink Proof.VRF Proof.VRFMsg Proof.VRFLink.
 Set Implicit Arguments.
 Unset Strict Implicit.
 Unset Printing Implicit Defensive.
@@ -109,6 +110,44 @@ Theorem C33_below_t_no_seed :
     vrf_seed seed_of t (vrf_run g2 H e t mpks members m [::] evs).1 = None.
 Proof. exact vrf_below_t_no_seed. Qed.
 Print Assumptions C33_below_t_no_seed.
+
+(* The executable instance compared with the Go code (Model/VRFZ.v + Model/VRFAdmit.v in
+   Corr/VRF.v: party ids and discrete logarithms in Z mod p) is the image of the algebraic model
+   in every field F of characteristic p (p = dz_r for the code; its primality is this premise),
+   with G1 = G2 = GT = F, g2 = 1, H(m) = 1, e = multiplication: share verification, and the whole
+   admission run (states and AddVRFShare results), for events that carry a discrete logarithm.
+   So an agreement of the correspondence check is an agreement with vrf_verify / vrf_run, the
+   objects of the theorems above.  members = (party id, aggregated key) of the miners, whose
+   keys are the images of the algebraic keys dkg_sk css id (that is C34's correspondence). *)
+Theorem C33_instance_verify_sound :
+  forall (F : fieldType) (p : Z), (1 < p)%Z -> Z.to_nat p \in [char F] ->
+  forall (M : Type) (m : M) (css : seq (seq F)) (members : seq (Z * Z)) (ev : vzc_ev),
+    (forall q : Z * Z, List.In q members -> dzl_can p q.1 /\ dzl_can p q.2) ->
+    (forall q : Z * Z, List.In q members -> dzl_phi F q.2 = dkg_sk css (dzl_phi F q.1)) ->
+    vzl_good p ev ->
+    let V := [lmodType F of F^o] in
+    vz_verify members ev =
+    vrf_verify (1 : V) (fun _ : M => (1 : V)) (fun x y : V => (x * y : V))
+               [seq dkg_mpk (1 : V) cs | cs <- css] [seq dzl_phi F q.1 | q <- members] m
+               (vzl_ev F ev).
+Proof. exact vzl_verify_correct. Qed.
+Print Assumptions C33_instance_verify_sound.
+
+Theorem C33_instance_admission_sound :
+  forall (F : fieldType) (p : Z), (1 < p)%Z -> Z.to_nat p \in [char F] ->
+  forall (M : Type) (m : M) (css : seq (seq F)) (members : seq (Z * Z)) (t : nat)
+         (evs : seq vzc_ev),
+    (forall q : Z * Z, List.In q members -> dzl_can p q.1 /\ dzl_can p q.2) ->
+    (forall q : Z * Z, List.In q members -> dzl_phi F q.2 = dkg_sk css (dzl_phi F q.1)) ->
+    all (vzl_good p) evs ->
+    let V := [lmodType F of F^o] in
+    let zr := va_run vze_tc vz_same (vz_verify members) t [::] evs in
+    vrf_run (1 : V) (fun _ : M => (1 : V)) (fun x y : V => (x * y : V)) t
+            [seq dkg_mpk (1 : V) cs | cs <- css] [seq dzl_phi F q.1 | q <- members] m [::]
+            [seq vzl_ev F i | i <- evs] =
+    ([seq vzl_ev F i | i <- zr.1], zr.2).
+Proof. exact vzl_run_correct. Qed.
+Print Assumptions C33_instance_admission_sound.
 
 (* Observation on the message format Sprintf("%v%v%v", round, timeout, hex(prev seed)): it is not
    an injective encoding of the triple (seed agreement above does not depend on it). *)
